@@ -102,6 +102,7 @@ def expected_reads(call):
         'fullpath': path_of(call),
         'script_name': '/',
         'cfg_limits': (None, 102400, ''),
+        'ext': 'g' + m,
     }
 
 
@@ -121,6 +122,7 @@ def read_request(app, env):
     out['fullpath'] = rq.fullpath
     out['script_name'] = rq.script_name
     out['cfg_limits'] = (rq.config.max_body_size, rq.config.max_memfile_size, rq.config.app_name_header)
+    out['ext'] = getattr(rq, 'tag', None)       # a user-defined attribute parked on the request by its own handler
     return out
 
 
@@ -260,6 +262,7 @@ def do_op(ctx, call, op, app, env):
         cp['PATH_INFO'] = '/mutated'
         cp['QUERY_STRING'] = 'm=mutated'
         cp['HTTP_X_M'] = 'mutated'
+        cp.tag = 'mutated'
         if cp.path != '/mutated':
             ctx.problem('C10:copy-wrong', f'request {call["m"]}: mutated copy shows path {cp.path!r}')
     elif kind == 'new_request':
@@ -337,6 +340,15 @@ def make_handler(ctx, app):
             ctx.problem('C10:wrong-app-entered', f'request {call["m"]} for app {call["app"]} entered another application\'s handler')
         if m != call['m']:
             ctx.problem('C10:foreign-request-visible', f'request {call["m"]}: url argument {m!r}')
+        try:
+            parked = getattr(app.request, 'tag', None)
+            if parked is not None:
+                ctx.problem('C10:foreign-request-visible',
+                            f'request {call["m"]} (app {call["app"]}) finds the attribute tag={parked!r} on its request on entry; '
+                            f'nothing was parked on this request yet')
+            app.request.tag = 'g' + call['m']
+        except Exception as e:   # noqa
+            ctx.problem('C10:request-read-error', f'{call["m"]}: user-defined request attribute: {type(e).__name__}: {e}')
         check_reads(ctx, call, app, env, 'on entry')
         if call.get('bad'):
             for i, op in enumerate(call['ops']):
@@ -386,12 +398,12 @@ def make_error_handler(ctx, app):
 def check_reads_bad(ctx, call, app, env):
     rq = app.request
     try:
-        got = (rq.path, rq.query.get('m'), rq.headers.get('X-M'), rq.environ is env)
+        got = (rq.path, rq.query.get('m'), rq.headers.get('X-M'), rq.environ is env, getattr(rq, 'tag', None))
     except Exception as e:   # noqa
         ctx.problem('C10:request-read-error', f'{call["m"]} in error handler: {type(e).__name__}: {e}')
         return
     m = call['m']
-    if got != ('/r/' + m, 'q' + m, 'h' + m, True):
+    if got != ('/r/' + m, 'q' + m, 'h' + m, True, 'g' + m):
         ctx.problem('C10:foreign-request-visible', f'request {m} (app {call["app"]}) in its 400 handler sees {got!r}')
 
 
